@@ -494,7 +494,7 @@ pub fn emode_entries(es: &[EmodeEntrySpec]) -> [EmodeEntry; MAX_EMODE_ENTRIES] {
     out
 }
 
-fn mfi_ix(accounts: Vec<AccountMeta>, data: Vec<u8>) -> Instruction {
+pub fn mfi_ix(accounts: Vec<AccountMeta>, data: Vec<u8>) -> Instruction {
     Instruction { program_id: marginfi::ID, accounts, data }
 }
 
